@@ -563,24 +563,43 @@ def r7_unit_test(ctx, sym):
              'len(self.successes)' in norm(n.value) for n in ast.walk(fm))
     ctx.check(ok, 'R7', 'success_count', mod, fm, "success_count is not len(self.successes)",
               "the reported pass count is wrong")
+    # unit_test executed abstractly: one assertion per case, in order, on the result of calling the student function
+    # with that case's arguments, against that case's expected value; the return value is `not group`
+    from .c03 import unit_test_runs
     cmod = ctx.repo.module(ACMDS)
     ut = cmod.func('unit_test')
-    ctx.analysed_function(cmod, ut)
-    rets = [n for n in body_walk(ut) if isinstance(n, ast.Return)]
-    ctx.check(len(rets) == 1 and norm(rets[0].value) == 'not group_result', 'R7', 'unit_test:returns', cmod, ut,
-              "unit_test does not return `not group_result`", "unit_test reports success although a case failed")
-    loops = [n for n in ast.walk(ut) if isinstance(n, ast.For) and 'enumerate(tests)' in norm(n.iter)]
-    ok = len(loops) == 1 and not any(isinstance(n, (ast.Break, ast.Continue, ast.Return)) for n in ast.walk(loops[0]))
-    if ok:
-        arms = [c for c in calls(loops[0]) if call_name(c) == 'assert_function']
-        if len(arms) == 2:
-            ifs = [n for n in loops[0].body if isinstance(n, ast.If)]
-            ok = len(ifs) == 1 and any(a in ast.walk(ast.Module(body=ifs[0].body, type_ignores=[])) for a in arms) \
-                and any(a in ast.walk(ast.Module(body=ifs[0].orelse, type_ignores=[])) for a in arms)
-        else:
-            ok = len(arms) == 1 and arms[0] in [n.value for n in loops[0].body if isinstance(n, ast.Expr)]
-    ctx.check(ok, 'R7', 'unit_test:each-case-once', cmod, ut,
-              "unit_test does not call the assert function exactly once per test case", "a case is skipped")
+    n_ut = 0
+    for sc, ob in unit_test_runs(ctx, sym):
+        if sc['score'] not in (None, '10') or sc['partial_credit'] not in (False, True):
+            continue
+        n_ut += 1
+        tag = '[cases=%d%s,partial_credit=%r]' % (sc['n'], ',string-args' if sc['str_args'] else '', sc['partial_credit'])
+        rec = ob['rec']
+        if ob['raised'] is not None:
+            ctx.fail('R7', 'unit_test:raises' + tag, cmod, ut, "unit_test raises %s" % ob['raised'].kind,
+                     "unit_test('f', ...)")
+            continue
+        asserts, calls_ = rec.named('assert'), rec.named('call')
+        ok = len(asserts) == sc['n'] and len(calls_) == sc['n'] and all(
+            a[1] and a[1][0] is ob['results'][i] and len(a[1]) >= 2 and a[1][1] == sc['tests'][i][1]
+            for i, a in enumerate(asserts))
+        if ok:
+            for i, c in enumerate(calls_):
+                args = sc['tests'][i][0]
+                if sc['str_args']:
+                    ok = ok and c[1][:1] == ('f',) and c[2].get('args_locals') == [args]
+                else:
+                    ok = ok and c[1] == ('f',) + tuple(args)
+        ctx.check(ok, 'R7', 'unit_test:each-case-once' + tag, cmod, ut,
+                  "unit_test does not assert exactly once per case, in order, on call(function, <that case's "
+                  "arguments>) against that case's expected value (%d assertion(s), %d call(s) for %d case(s))" % (
+                      len(asserts), len(calls_), sc['n']), "a case is skipped, repeated or compared with another "
+                  "case's expected value")
+        # the group object is falsy (no failure) in this model: unit_test must report success
+        ctx.check(ob['value'] is True, 'R7', 'unit_test:returns' + tag, cmod, ut,
+                  "unit_test returns %r for a group without failures (expected `not group_result` = True)" % (
+                      ob['value'],), "unit_test reports failure although every case passed (or the reverse)")
+    ctx.floor('R7', 'unit_test scenarios', n_ut, 10)
 
 
 def r8_constructible(ctx, sym, h):
